@@ -196,6 +196,14 @@ def _check(ex, step, rec, where):
         return
     ex.records.append(r)
 
+def _strip_owner(step):
+    """the same step with every operand owned by the step's own actor (reference runs)"""
+    from simkit.world import _walk_specs
+    for sp in _walk_specs(step):
+        if 'owner' in sp:
+            sp.pop('owner', None)
+    return step
+
 def _solo_program(prog, actor):
     """actor's projection: its own steps in order; a clone starts with 'create,
     then set the inherited precision' (recorded by the model at clone time)."""
@@ -216,6 +224,7 @@ def _solo_program(prog, actor):
                 for sp in _walk_specs(s2):
                     if sp.get('t') == 'cb':
                         sp.pop('shim', None)
+                _strip_owner(s2)     # alone, every operand is the actor's own number of the same value
             out.append(s2)
         # a step of another actor whose callback ran a nested step on `actor`
         f = s.get('fault')
@@ -281,7 +290,7 @@ def _judge(res, mode, budget, seed_base):
             def get_R():
                 if actor == 'fp' or not step or step.get('kind') != 'call':
                     return None
-                return refs.pristine_eval(step, 2 * p + 64, mode=mode, seed_base=seed_base)
+                return refs.pristine_eval(_strip_owner(json.loads(json.dumps(step))), 2 * p + 64, mode=mode, seed_base=seed_base)
             verdict, detail = compare.compare(h, f, get_R, p, t, r.get('exact', False))
             bump('solo_judged'); bump(verdict)
             if verdict == 'violation':
@@ -295,7 +304,7 @@ def _judge(res, mode, budget, seed_base):
         step = steps_by_id.get(r['id'])
         if not step or step.get('kind') != 'call' or not step.get('clone_vs_mp'):
             continue
-        s2 = json.loads(json.dumps(step)); s2['actor'] = 'mp'
+        s2 = _strip_owner(json.loads(json.dumps(step))); s2['actor'] = 'mp'
         # the reference mp gets the clone's own settings (trap_complex changes outcomes by specification)
         setup = [{'kind': 'setting', 'actor': 'mp', 'name': 'trap_complex', 'value': True}] if r.get('trap') else None
         f = refs.pristine_eval(s2, r['prec'], mode=mode, seed_base=seed_base, setup=setup)
@@ -338,6 +347,7 @@ class _Gen(object):
         self.nfault = 0
         self.used = {}
         self.seen_precs = [53]
+        self.foreign_rate = r.choice([0.0, 0.0, 0.25, 0.5])
 
     def new_id(self):
         self.nid += 1
@@ -429,6 +439,16 @@ class _Gen(object):
             st['typed'] = e.ret in ('num', 'seq', 'matrix')
             if actor in ('c1', 'c2'):
                 st['clone_vs_mp'] = True
+            # a number made by another mp-type context as an operand of a function of this one: the function
+            # must compute with it as with its own number of that value (operators are excluded: there the
+            # left operand's context rules by design)
+            uf = r.random()
+            donors = [a for a in ('mp', 'c1', 'c2') if a != actor and a in self.created]
+            if uf < self.foreign_rate and actor in ('mp', 'c1', 'c2') and donors and st['op'].startswith('f:'):
+                idx = [i for i, a in enumerate(st.get('args', [])) if a.get('t') in ('mpf', 'mpc')]
+                if idx:
+                    st['args'][r.choice(idx)]['owner'] = r.choice(donors)
+                    st['foreign'] = True
             u1, u2, u3 = r.random(), r.random(), r.random()
             others = [a for a in self.actors if a != actor and a in self.created and a != 'fp']
             if e.cb and others and u1 < self.f4_rate:
